@@ -72,6 +72,8 @@ type fgen struct {
 	top   map[string]bool
 	ext   []string // fully-qualified names of importable external types
 	feat  map[string]bool
+	clean bool
+	names map[string]bool // clean profile: type names are unique in the whole file
 	// source info
 	srcMode int
 	locs    []*descriptorpb.SourceCodeInfo_Location
@@ -91,6 +93,25 @@ func (g *fgen) fresh(used map[string]bool, pool []string) string {
 	for i := 0; ; i++ {
 		n := fmt.Sprintf("%s%d", pool[0], i)
 		if !used[n] {
+			used[n] = true
+			return n
+		}
+	}
+}
+
+// typeName picks a type name; in the clean profile no two declarations of the file share one
+// (so no relative reference can be captured).
+func (g *fgen) typeName(used map[string]bool) string {
+	if !g.clean {
+		return g.fresh(used, typeNamePool)
+	}
+	for {
+		n := g.pick(typeNamePool)
+		if g.names[n] || used[n] {
+			n = fmt.Sprintf("%s%d", n, len(g.names))
+		}
+		if !g.names[n] && !used[n] {
+			g.names[n] = true
 			used[n] = true
 			return n
 		}
@@ -163,7 +184,7 @@ func (g *fgen) comment() string {
 }
 
 func (g *fgen) addEnum(owner *gmsg, used map[string]bool) {
-	name := g.fresh(used, typeNamePool)
+	name := g.typeName(used)
 	ep := &descriptorpb.EnumDescriptorProto{Name: proto.String(name)}
 	prefix := strings.ToUpper(name)
 	n := 1 + g.h.Rng.IntN(4)
@@ -200,7 +221,7 @@ func (g *fgen) addMsg(owner *gmsg, depth int) *gmsg {
 	if owner != nil {
 		used = owner.used
 	}
-	name := g.fresh(used, typeNamePool)
+	name := g.typeName(used)
 	m := &gmsg{name: name, parent: owner, dp: &descriptorpb.DescriptorProto{Name: proto.String(name)}, used: map[string]bool{}}
 	if owner == nil {
 		m.path = []string{name}
@@ -263,6 +284,19 @@ func (g *fgen) typeRefField(f *descriptorpb.FieldDescriptorProto, from *gmsg) {
 	}
 }
 
+// freshField picks a field name whose default JSON name is also unused in the message
+// (protoc rejects two fields with the same default JSON name).
+func (g *fgen) freshField(m *gmsg) string {
+	for {
+		n := g.fresh(m.used, fieldNamePool)
+		j := "json:" + strings.ToLower(protocJSONName(n))
+		if !m.used[j] {
+			m.used[j] = true
+			return n
+		}
+	}
+}
+
 func (g *fgen) addFields(m *gmsg) {
 	n := g.h.Rng.IntN(6)
 	num := int32(0)
@@ -283,7 +317,7 @@ func (g *fgen) addFields(m *gmsg) {
 		num = 536870911 - int32(n) - 4 // near the maximum field number
 	}
 	for i := 0; i < n; i++ {
-		name := g.fresh(m.used, fieldNamePool)
+		name := g.freshField(m)
 		f := &descriptorpb.FieldDescriptorProto{Name: proto.String(name), Number: proto.Int32(nextNum()), Label: descriptorpb.FieldDescriptorProto_LABEL_OPTIONAL.Enum()}
 		kind := g.h.Rng.IntN(12)
 		switch {
@@ -321,7 +355,7 @@ func (g *fgen) addFields(m *gmsg) {
 			extra := g.h.Rng.IntN(3)
 			for k := 0; k < extra; k++ {
 				m.dp.Field = append(m.dp.Field, f)
-				f = &descriptorpb.FieldDescriptorProto{Name: proto.String(g.fresh(m.used, fieldNamePool)), Number: proto.Int32(nextNum()),
+				f = &descriptorpb.FieldDescriptorProto{Name: proto.String(g.freshField(m)), Number: proto.Int32(nextNum()),
 					Label: descriptorpb.FieldDescriptorProto_LABEL_OPTIONAL.Enum(), OneofIndex: proto.Int32(idx)}
 				g.typeRefField(f, m)
 			}
@@ -330,8 +364,13 @@ func (g *fgen) addFields(m *gmsg) {
 			g.typeRefField(f, m)
 		}
 		if g.h.Chance(1, 8) {
-			f.JsonName = proto.String(vh.Pick(g.h, []string{name, "custom" + camel(name), strings.ToUpper(name)}))
-			g.feat["json_name"] = true
+			name := f.GetName() // the oneof case may have moved on to a later member
+			jn := vh.Pick(g.h, []string{name, "custom" + camel(name), strings.ToUpper(name) + "_X", name + "ü", "with space " + name})
+			if key := "json:" + strings.ToLower(jn); !m.used[key] || jn == name {
+				m.used[key] = true
+				f.JsonName = proto.String(jn)
+				g.feat["json_name"] = true
+			}
 		}
 		m.dp.Field = append(m.dp.Field, f)
 	}
@@ -347,7 +386,15 @@ func (g *fgen) addFields(m *gmsg) {
 
 // ---------------------------------------------------------------- option values
 
-func (g *fgen) randString() string { return hardStrings[g.h.Rng.IntN(len(hardStrings))] }
+func (g *fgen) randString() string {
+	for {
+		s := hardStrings[g.h.Rng.IntN(len(hardStrings))]
+		if g.clean && strings.ContainsRune(s, 0) {
+			continue
+		}
+		return s
+	}
+}
 
 func (g *fgen) randScalar(fd protoreflect.FieldDescriptor) (protoreflect.Value, bool) {
 	r := g.h.Rng
@@ -359,7 +406,7 @@ func (g *fgen) randScalar(fd protoreflect.FieldDescriptor) (protoreflect.Value, 
 	case protoreflect.BytesKind:
 		b := []byte(g.randString())
 		if g.h.Chance(1, 3) {
-			b = append(b, 0xff, 0xc0, 0x80, byte(r.IntN(256)))
+			b = append(b, 0xff, 0xc0, 0x80, byte(1+r.IntN(255)))
 		}
 		return protoreflect.ValueOfBytes(b), true
 	case protoreflect.Int32Kind, protoreflect.Sint32Kind, protoreflect.Sfixed32Kind:
@@ -412,7 +459,7 @@ func (g *fgen) fill(m protoreflect.Message, depth int) {
 		case fd.IsMap():
 			mp := m.Mutable(fd).Map()
 			n := 1
-			if g.h.Chance(1, 4) {
+			if !g.clean && g.h.Chance(1, 4) {
 				n = 2 + g.h.Rng.IntN(2)
 				g.feat["opt.map-multi"] = true
 			}
@@ -422,6 +469,9 @@ func (g *fgen) fill(m protoreflect.Message, depth int) {
 					continue
 				}
 				if fd.MapValue().Kind() == protoreflect.MessageKind {
+					if g.clean {
+						continue
+					}
 					g.feat["opt.map-of-message"] = true
 					vm := mp.NewValue()
 					g.fill(vm.Message(), depth+2)
@@ -470,7 +520,16 @@ func (g *fgen) fill(m protoreflect.Message, depth int) {
 // extensionsFor lists the extension types registered for an options message.
 func extensionsFor(optName protoreflect.FullName) []protoreflect.ExtensionType {
 	var out []protoreflect.ExtensionType
+	seen := map[protoreflect.FieldNumber]bool{}
 	protoregistry.GlobalTypes.RangeExtensionsByMessage(optName, func(xt protoreflect.ExtensionType) bool {
+		// j5.sourcedef.v1 re-uses extension numbers of j5.ext.v1 (the two are never used together)
+		if strings.HasPrefix(string(xt.TypeDescriptor().FullName()), "j5.sourcedef.") {
+			return true
+		}
+		if seen[xt.TypeDescriptor().Number()] {
+			return true
+		}
+		seen[xt.TypeDescriptor().Number()] = true
 		out = append(out, xt)
 		return true
 	})
@@ -544,6 +603,9 @@ func (g *fgen) maybeOptions(newOpts func() proto.Message, rate int) proto.Messag
 		if xt.TypeDescriptor().FullName() == "pb.go" {
 			continue
 		}
+		if g.clean && xt.TypeDescriptor().IsList() {
+			continue
+		}
 		g.setExt(opts, xt)
 	}
 	if proto.Size(opts) == 0 {
@@ -567,7 +629,18 @@ var externalTypes = []struct{ file, name string }{
 func genFdpOp(h *vh.H) string {
 	g := &fgen{h: h, top: map[string]bool{}, feat: map[string]bool{}}
 	g.pkg = g.pick(pkgPool)
-	g.srcMode = vh.Pick(h, []int{0, 0, 1, 1, 1, 2})
+	// two profiles: "clean" avoids the constructs behind recorded findings (shadowing names,
+	// repeated top-level extensions, built-in options, NUL, missing source info), so that anything
+	// it trips over is new; "adversarial" aims at them.
+	g.clean = !h.Chance(3, 10)
+	if g.clean {
+		g.srcMode = 1
+		g.names = map[string]bool{}
+		h.Count("gen.fdp.profile-clean")
+	} else {
+		g.srcMode = vh.Pick(h, []int{0, 0, 1, 1, 1, 2})
+		h.Count("gen.fdp.profile-adversarial")
+	}
 	g.fdp = &descriptorpb.FileDescriptorProto{
 		Name:    proto.String(strings.ReplaceAll(g.pkg, ".", "/") + "/gen.proto"),
 		Package: proto.String(g.pkg),
@@ -608,12 +681,16 @@ func genFdpOp(h *vh.H) string {
 			for k := 0; k < nmeth; k++ {
 				in := g.msgs[h.Rng.IntN(len(g.msgs))]
 				out := g.msgs[h.Rng.IntN(len(g.msgs))]
+				mpool := []string{"Get", "List", "Create", "Foo", "Bar"}
+				if g.clean {
+					mpool = []string{"Get", "List", "Create", "Update", "Delete"}
+				}
 				md := &descriptorpb.MethodDescriptorProto{
-					Name:       proto.String(g.fresh(used, []string{"Get", "List", "Create", "Foo", "Bar"})),
+					Name:       proto.String(g.fresh(used, mpool)),
 					InputType:  proto.String(full(g.pkg, in.path)),
 					OutputType: proto.String(full(g.pkg, out.path)),
 				}
-				if h.Chance(1, 25) {
+				if !g.clean && h.Chance(1, 25) {
 					md.ServerStreaming = proto.Bool(true)
 					g.feat["streaming"] = true
 				}
@@ -638,7 +715,7 @@ func genFdpOp(h *vh.H) string {
 			if o := g.maybeOptions(func() proto.Message { return &descriptorpb.FieldOptions{} }, 5); o != nil {
 				f.Options = o.(*descriptorpb.FieldOptions)
 			}
-			if h.Chance(1, 60) {
+			if !g.clean && h.Chance(1, 30) {
 				if f.Options == nil {
 					f.Options = &descriptorpb.FieldOptions{}
 				}
@@ -668,7 +745,11 @@ func genFdpOp(h *vh.H) string {
 	// file options
 	if h.Chance(1, 3) {
 		fo := &descriptorpb.FileOptions{}
-		switch h.Rng.IntN(5) {
+		k := h.Rng.IntN(5)
+		if g.clean && k == 3 {
+			k = 0
+		}
+		switch k {
 		case 0:
 			fo.GoPackage = proto.String("github.com/x/y/gen_pb")
 		case 1:
